@@ -93,7 +93,17 @@ def history(rng, wld, nsteps, keys):
                 # delete by document number: find the committed document carrying k, if any
                 with wr.searcher() as s:
                     dns = list(s.document_numbers(key=k))       # (several when the key was added twice)
-                if dns:
+                if dns and rng.random() < 0.25:
+                    # ... deleted by number and restored again in the same session (delete=False): no change
+                    wld.actor(name)
+
+                    def there_and_back():
+                        for dn in dns:
+                            wr.delete_document(dn)
+                        for dn in dns:
+                            wr.delete_document(dn, delete=False)
+                    wld.guarded(name, "delete_document(delete=False)", there_and_back)
+                elif dns:
                     wld.actor(name)
                     pend_undup.add(k)
                     for dn in dns:
